@@ -869,6 +869,10 @@ Fixpoint eval (env loc : list lval) (e : hexp) {struct e} : M lval :=
                                                    | Raise _ => dom _ <- converse 4 [LP idp]; unm
                                                    | _ => ret tt
                                                    end
+                                 | LT (_ :: _), LV p => match iter_elems false p with
+                                                        | Raise _ => unm      (* str(<tuple callee>): repr() of every element; not modelled *)
+                                                        | _ => ret tt
+                                                        end
                                  | _, _ => ret tt
                                  end;
                         dom l <- iter_lval sv; ret (l, k)
@@ -953,12 +957,19 @@ Definition end_conn (s : state) : state := if closed s then s else fst (cleanup 
 
 (* what reporting an exception to the peer does to the objects it carries: traceback formatting lists dir(obj) of a failed
    attribute lookup to suggest a name; vinegar.dump sends repr() of every argument / attribute that is not a plain value *)
-Definition payload_events (x : xid) : list event :=
+Definition tb_events (x : xid) : list event :=          (* traceback.format_exception on the exception itself: dir(obj) suggestion / str(exc) *)
   match x with
-  | XAttrObj o => EPayload o OpDir :: (if s_callable S o then [] else [EPayload o OpRepr])      (* vinegar.dump skips callable attribute values *)
-  | XCarry os => map (fun o => EPayload o OpStr) os ++ map (fun o => EPayload o OpRepr) os      (* str(exc) in the traceback text, repr(arg) in the record *)
+  | XAttrObj o => [EPayload o OpDir]
+  | XCarry os => map (fun o => EPayload o OpStr) os
   | _ => []
   end.
+Definition dump_events (x : xid) : list event :=        (* vinegar.dump: repr() of non-plain arguments / non-callable attribute values *)
+  match x with
+  | XAttrObj o => if s_callable S o then [] else [EPayload o OpRepr]
+  | XCarry os => map (fun o => EPayload o OpRepr) os
+  | _ => []
+  end.
+Definition payload_events (x : xid) : list event := tb_events x ++ dump_events x.
 Definition dispatch_request (seq raw : pyval) : state -> state * out :=
   fun s =>
     let m : M lval :=
@@ -977,7 +988,7 @@ Definition dispatch_request (seq raw : pyval) : state -> state * out :=
     | (s1, RRaise x) =>
         if closed s1 then (s1, OClosed)
         else if propagates x then (end_conn s1, OEnd x)
-        else (fold_left add_ev (map (fun c => ECtx (fst c) (snd c)) (rev (ctxs s1)) ++ payload_events x) s1, OExc seq x)      (* _send_exc: vinegar.dump *)
+        else (fold_left add_ev (tb_events x ++ map (fun c => ECtx (fst c) (snd c)) (ctxs s1) ++ dump_events x) s1, OExc seq x)      (* _send_exc: vinegar.dump *)
     | (s1, RUnm) => (s1, OUnm)
     end.
 
